@@ -71,6 +71,45 @@ func c17Values(c *mon.Ctx, r *mon.Rand) {
 		{root.SubScope("sub"), mon.RefName(prefix, "_", "sub"), rootTags},
 		{root.SubScope("sub").Tagged(map[string]string{"zone": "z"}).SubScope("deep"), mon.RefName(prefix, "_", "sub", "deep"), mon.RefOverlay(rootTags, map[string]string{"zone": "z"})},
 	}
+	// half of the histories pre-register some vectors the way applications do
+	// to attach help texts, with the tag keys in an order of the harness's choice
+	if r.Bool() {
+		keysFor := func(tags map[string]string) []string {
+			ks := make([]string, 0, len(tags))
+			for k := range tags {
+				ks = append(ks, k)
+			}
+			sort.Strings(ks)
+			if r.Bool() {
+				for i, j := 0, len(ks)-1; i < j; i, j = i+1, j-1 {
+					ks[i], ks[j] = ks[j], ks[i] // reverse alphabetical
+				}
+			} else {
+				r.ShuffleStrings(ks)
+			}
+			return ks
+		}
+		for _, s := range scs {
+			for _, id := range []string{"a", "b"} {
+				if r.Bool() {
+					if _, err := rep.RegisterCounter(mon.RefName(s.prefix, "_", "c"+id), keysFor(s.tags), "help"); err != nil {
+						regErrs = append(regErrs, "RegisterCounter: "+err.Error())
+					}
+				}
+				if r.Bool() {
+					if _, err := rep.RegisterGauge(mon.RefName(s.prefix, "_", "g"+id), keysFor(s.tags), "help"); err != nil {
+						regErrs = append(regErrs, "RegisterGauge: "+err.Error())
+					}
+				}
+				if r.Bool() {
+					if _, err := rep.RegisterTimer(mon.RefName(s.prefix, "_", "t"+id), keysFor(s.tags), "help", nil); err != nil {
+						regErrs = append(regErrs, "RegisterTimer: "+err.Error())
+					}
+				}
+			}
+		}
+		c.Class("histories-with-preregistered-vectors", 1)
+	}
 	ref := map[string]*c17Series{}
 	var ops []string
 	desc := func() interface{} {
